@@ -421,8 +421,12 @@ def prog_fi(rng, **kw):
             prog["extra"]["cost_short"] = {n: [rng.choice([0, 0.05, 0.2]) for _ in range(T)] for n in cp}
     if rng.random() < 0.4:
         prog["extra"]["bidoffer"] = {n: [rng.choice([0, 2]) for _ in range(T)] for n in names}
-    # (a wind-down schedule may set the notional to exactly zero for a while)
-    prog["extra"]["notional"] = {"__series__": True, "values": [rng.choice([1000, 1000, 2000, 500, 0]) for _ in range(T)]}
+    # (a wind-down ends at exactly zero: on the last date only - the date after a notional
+    # traded down to zero divides by its floating-point residue, known finding K8's family)
+    vals = [rng.choice([1000, 1000, 2000, 500]) for _ in range(T)]
+    if rng.random() < 0.5:
+        vals[-1] = 0
+    prog["extra"]["notional"] = {"__series__": True, "values": vals}
     w = {n: float(rng.choice([Fraction(1, 2), Fraction(1, 4), Fraction(-1, 4), Fraction(1, 5), Fraction(0)])) for n in names}
     st = [rng.choice([["RunDaily", {}], ["RunEveryNPeriods", {"n": 2}], ["RunOnce", {}]]), ["WeighSpecified", {"w": w}], ["SetNotional", {"notional": "notional"}], ["Rebalance", {}]]
     prog["tree"] = {"name": "r", "fi": True, "algos": st, "children": [{"sec": n, "kind": k, "mult": 1} for n, k in zip(names, kinds)]}
